@@ -337,6 +337,11 @@ fn walk(case: &Case, dfa: &DFA<usize>, ders: Vec<Re>) -> Outcome {
 impl Property for C15 {
     type Case = Case;
 
+    fn fuzz(&self) -> Option<FuzzSpec> {
+        // entropy-driven target: libFuzzer's bytes replace the generator's random numbers
+        Some(FuzzSpec { target: "gen", jobs: 8, runs: 30_000, max_len: 4096, seeds: 64 })
+    }
+
     fn id(&self) -> &'static str {
         "C15"
     }
